@@ -198,6 +198,9 @@ def check_aba(ctx, st, S, A, B, patA, patB, atol, seed, w, tol, fraction=1.0, sa
         return 0
     if kept and o1["found"] is not None and replcase.matches_overlap(o1["found"]):
         st.count("two_step_histories_whose_occurrences_share_an_atom_both_patterns_keep")
+    if fraction < 1.0 and o1["selected"] is None and o1["found"]:
+        st.count("not_judged_selection_not_observable")
+        return 0
     if fraction < 1.0 and o1["selected"] is not None:
         # only the selected sites were substituted
         o1 = dict(o1, found=[o1["found"][k] for k in o1["selected"]], all_found=o1["found"])
